@@ -110,6 +110,114 @@ pub fn gen_wide_file(seed: u64, i: u64) -> (Vec<u8>, usize) {
     (w.bytes, (n as usize).min(limit))
 }
 
+/// the filter of the filtered-load stage: drops the odd-numbered objects, keeps the rest unchanged
+pub fn keep_even_numbers(id: (u32, u16), o: &mut lopdf::Object) -> Option<((u32, u16), lopdf::Object)> {
+    if id.0 % 2 == 1 && id.0 > 4 {
+        None
+    } else {
+        Some((id, o.clone()))
+    }
+}
+
+/// child process entry: `vh c08-filtered <file> <threads> <reps>` prints one digest per completed load
+pub fn filtered_child_main(args: &[String]) {
+    let path = std::path::PathBuf::from(&args[0]);
+    let threads: usize = args[1].parse().unwrap_or(3);
+    let reps: u64 = args[2].parse().unwrap_or(10);
+    #[cfg(feature = "par")]
+    {
+        use std::io::Write;
+        let pool = rayon::ThreadPoolBuilder::new().num_threads(threads).build().expect("pool");
+        let so = std::io::stdout();
+        for _ in 0..reps {
+            let d = pool.install(|| Document::load_filtered(&path, keep_even_numbers).map(|d| digest(&d)).unwrap_or(0));
+            let mut l = so.lock();
+            let _ = writeln!(l, "{:x}", d);
+            let _ = l.flush();
+        }
+    }
+    #[cfg(not(feature = "par"))]
+    {
+        let _ = threads;
+        for _ in 0..reps {
+            println!("{:x}", Document::load_filtered(&path, keep_even_numbers).map(|d| digest(&d)).unwrap_or(0));
+        }
+    }
+}
+
+pub enum FilteredOutcome {
+    Digests(Vec<u64>),
+    /// number of loads completed before the process stopped making progress
+    Blocked(usize),
+    Inconclusive(String),
+}
+
+fn cpu_secs(pid: u32) -> Option<f64> {
+    let s = std::fs::read_to_string(format!("/proc/{}/stat", pid)).ok()?;
+    let rest = &s[s.rfind(')')? + 2..];
+    let f: Vec<&str> = rest.split(' ').collect();
+    let ut: f64 = f.get(11)?.parse().ok()?;
+    let st: f64 = f.get(12)?.parse().ok()?;
+    Some((ut + st) / 100.0)
+}
+
+pub fn filtered_child(path: &std::path::Path, threads: usize, reps: u64) -> FilteredOutcome {
+    use std::io::Read;
+    let exe = match std::env::current_exe() {
+        Ok(e) => e,
+        Err(e) => return FilteredOutcome::Inconclusive(format!("current_exe: {}", e)),
+    };
+    let mut child = match std::process::Command::new(exe).arg("c08-filtered").arg(path).arg(threads.to_string()).arg(reps.to_string()).stdout(std::process::Stdio::piped()).stderr(std::process::Stdio::null()).spawn() {
+        Ok(c) => c,
+        Err(e) => return FilteredOutcome::Inconclusive(format!("spawn: {}", e)),
+    };
+    let pid = child.id();
+    // stdout is drained by a thread so that the child never blocks on a full pipe
+    let mut so = child.stdout.take().expect("piped");
+    let reader = std::thread::spawn(move || {
+        let mut s = String::new();
+        let _ = so.read_to_string(&mut s);
+        s
+    });
+    let start = std::time::Instant::now();
+    let mut last_cpu = cpu_secs(pid).unwrap_or(0.0);
+    let mut last_progress = std::time::Instant::now();
+    loop {
+        match child.try_wait() {
+            Ok(Some(st)) => {
+                let text = reader.join().unwrap_or_default();
+                let ds: Vec<u64> = text.lines().filter_map(|l| u64::from_str_radix(l.trim(), 16).ok()).collect();
+                if !st.success() || ds.len() as u64 != reps {
+                    return FilteredOutcome::Inconclusive(format!("child ended with {:?} after {} of {} loads", st.code(), ds.len(), reps));
+                }
+                return FilteredOutcome::Digests(ds);
+            }
+            Ok(None) => {}
+            Err(e) => return FilteredOutcome::Inconclusive(format!("wait: {}", e)),
+        }
+        std::thread::sleep(std::time::Duration::from_millis(100));
+        let cpu = cpu_secs(pid).unwrap_or(last_cpu);
+        if cpu > last_cpu + 0.02 {
+            last_cpu = cpu;
+            last_progress = std::time::Instant::now();
+        }
+        let stalled = last_progress.elapsed().as_secs_f64();
+        if stalled > 20.0 {
+            // no CPU consumed for 20 s although loads remain: every thread is waiting
+            let _ = child.kill();
+            let _ = child.wait();
+            let text = reader.join().unwrap_or_default();
+            return FilteredOutcome::Blocked(text.lines().count());
+        }
+        if start.elapsed().as_secs_f64() > 600.0 {
+            let _ = child.kill();
+            let _ = child.wait();
+            let _ = reader.join();
+            return FilteredOutcome::Inconclusive("child still busy after 600 s".into());
+        }
+    }
+}
+
 fn factorial(k: usize) -> i64 {
     (1..=k as i64).product()
 }
@@ -283,6 +391,64 @@ pub fn run(cfg: &RunCfg) -> (PropMeta, ShardOut, Map<String, Value>) {
             }
         }
     }
+    // ---- stage 2c: the filtered loader (Document::load_filtered) shares the parallel phase but takes its own branch
+    // for object streams. Loads run in a child process: a load that never returns cannot be abandoned in-process. The
+    // verdict on a child that does not finish is taken from its CPU clock, not from wall time: a process whose threads
+    // all wait for each other stops consuming CPU (violation), one that is merely slow keeps consuming it (inconclusive).
+    let n4 = cfg.n(2, 10);
+    let reps = cfg.n(250, 1000);
+    for i in 0..n4 {
+        let (bytes, k) = gen_file(cfg.seed, 2_000_000 + i, true);
+        let dir = cfg.work_dir().join("C08");
+        let _ = std::fs::create_dir_all(&dir);
+        let path = dir.join(format!("filtered-{}-{}.pdf", if is_seq { "seq" } else { "par" }, i));
+        if std::fs::write(&path, &bytes).is_err() {
+            out.inconclusive.push("could not write the work file of the filtered-load stage".into());
+            break;
+        }
+        out.digests.insert(crate::prng::fnv_bytes(&bytes));
+        if is_seq {
+            // sequential build: in-process, there is no pool to wait for
+            let d = Document::load_filtered(&path, keep_even_numbers).map(|d| digest(&d)).unwrap_or(0);
+            out.counters.insert(format!("digest:s2c:{}", i), d);
+            out.evaluations += 1;
+            let _ = std::fs::remove_file(&path);
+            continue;
+        }
+        let mut first: Option<u64> = seq.get(&format!("digest:s2c:{}", i)).copied();
+        if first.is_some() {
+            out.count("compared_with_sequential_build");
+        }
+        for threads in [3usize, 4, 8, 16] {
+            match filtered_child(&path, threads, reps) {
+                FilteredOutcome::Digests(ds) => {
+                    out.evaluations += ds.len() as u64;
+                    out.add("filtered_pool_loads", ds.len() as u64);
+                    for d in ds {
+                        let want = *first.get_or_insert(d);
+                        if d != want {
+                            out.finding(Finding {
+                                signature: "C08/filtered-load/differs".into(),
+                                what: format!("file with {} object streams: load_filtered on a pool of {} threads gives digest {:x}, expected {:x} (sequential build / first load)", k, threads, d, want),
+                                witness: json!({"kind":"filtered","file_hex":hex(&bytes),"object_streams":k,"threads":threads,"reps":reps}),
+                            });
+                            break;
+                        }
+                    }
+                }
+                FilteredOutcome::Blocked(done) => {
+                    out.finding(Finding {
+                        signature: "C08/filtered-load/never-returns".into(),
+                        what: format!("file with {} object streams: after {} good loads, load_filtered on a pool of {} threads did not return and the process stopped consuming CPU (its threads wait for each other)", k, done, threads),
+                        witness: json!({"kind":"filtered","file_hex":hex(&bytes),"object_streams":k,"threads":threads,"reps":reps}),
+                    });
+                    break;
+                }
+                FilteredOutcome::Inconclusive(why) => out.inconclusive.push(format!("filtered-load stage: {}", why)),
+            }
+        }
+        let _ = std::fs::remove_file(&path);
+    }
     // ---- stage 3 (thorough, default-features build only): Miri on the rayon loader
     if !is_seq && !cfg.quick() {
         miri_stage(cfg, &mut out);
@@ -300,7 +466,7 @@ pub fn run(cfg: &RunCfg) -> (PropMeta, ShardOut, Map<String, Value>) {
     }
     let meta = PropMeta {
         level: "fault_enumeration",
-        rule: "stage 1: files with 2..6 object streams (multi-revision histories, so the same object number occurs in several containers; zero-length streams and indirect lengths included): through hook H1 every one of the k! orders in which the parallel phase can append the containers' objects is applied and the canonical digest (objects, trailer, max_id, version) must equal the natural-order digest and the digest computed by the no-default-features (sequential) build; stage 2: files with >= 8 object streams loaded 12 times in rayon pools of 1..16 threads with seeded delays before the accumulator lock; digests must agree and the completion orders actually observed are counted; stage 2b: files whose object streams hold 256..1300 objects each, loaded in pools of 1..8 and 16 threads and by the sequential build (how the index of one container is divided among workers must not show). distinct = distinct files.".into(),
+        rule: "stage 1: files with 2..6 object streams (multi-revision histories, so the same object number occurs in several containers; zero-length streams and indirect lengths included): through hook H1 every one of the k! orders in which the parallel phase can append the containers' objects is applied and the canonical digest (objects, trailer, max_id, version) must equal the natural-order digest and the digest computed by the no-default-features (sequential) build; stage 2: files with >= 8 object streams loaded 12 times in rayon pools of 1..16 threads with seeded delays before the accumulator lock; digests must agree and the completion orders actually observed are counted; stage 2b: files whose object streams hold 256..1300 objects each, loaded in pools of 1..8 and 16 threads and by the sequential build (how the index of one container is divided among workers must not show); stage 2c: Document::load_filtered with a filter that drops odd-numbered objects, repeated in child processes on pools of 3..16 threads - every load must return (a child whose CPU clock stands still for 20 s with loads outstanding is blocked) with the digest of the sequential build. distinct = distinct files.".into(),
         assumptions: vec![
             "the merge of object-stream contents is the only point where completion order can reach the result (anchor of the property); interleavings inside the parse of one object are sampled (pools, delays), not enumerated".into(),
             "the Miri stage of DESIGN.md §4 C08 runs only in the thorough tier".into(),
@@ -374,6 +540,21 @@ pub fn replay(w: &Value) -> Vec<Finding> {
     use std::sync::atomic::Ordering;
     let bytes = unhex(w.get("file_hex").and_then(|x| x.as_str()).unwrap_or(""));
     let k = w.get("object_streams").and_then(|x| x.as_u64()).unwrap_or(2) as usize;
+    if w.get("kind").and_then(|x| x.as_str()) == Some("filtered") {
+        let threads = w.get("threads").and_then(|x| x.as_u64()).unwrap_or(3) as usize;
+        let reps = w.get("reps").and_then(|x| x.as_u64()).unwrap_or(250);
+        let path = std::env::temp_dir().join(format!("vh-c08-filtered-{}.pdf", std::process::id()));
+        if std::fs::write(&path, &bytes).is_err() {
+            return vec![];
+        }
+        let res = filtered_child(&path, threads, reps * 4);
+        let _ = std::fs::remove_file(&path);
+        return match res {
+            FilteredOutcome::Blocked(done) => vec![Finding { signature: "C08/filtered-load/never-returns".into(), what: format!("load_filtered did not return after {} good loads", done), witness: w.clone() }],
+            FilteredOutcome::Digests(ds) if ds.windows(2).any(|p| p[0] != p[1]) => vec![Finding { signature: "C08/filtered-load/differs".into(), what: "repeated filtered loads disagree".into(), witness: w.clone() }],
+            _ => vec![],
+        };
+    }
     MERGE_PERM.store(-1, Ordering::Relaxed);
     let Ok(base) = Document::load_mem(&bytes) else { return vec![] };
     let d0 = digest(&base);
